@@ -5,7 +5,9 @@
 //! The interleaved backend log is abstracted (as in C03) and judged by the Lean driver: nothing a snapshot needs is
 //! lost after any prefix, and the repository is consistent after the follow-up prune.
 //!
-//!   c10 mon <bp|pb|bb> <seed>,<k> <pre-ops> <run-ops> <followup-ops>
+//!   c10 mon <bp|pb|bb> <seed>,<k>[,<j>] <pre-ops> <run-ops> <followup-ops>
+//! With `j`: B runs on a gated thread too and parks before its j-th storage operation until A has finished
+//! (interleaving A[0..k) B[0..j) A[k..] B[j..]).
 use std::sync::atomic::{AtomicBool, AtomicUsize, Ordering};
 use std::sync::mpsc::channel;
 use std::sync::{Arc, Mutex};
@@ -89,28 +91,34 @@ pub struct Run {
     pub run: Vec<String>,
     pub follow: Vec<String>,
     pub n_a: usize,
+    /// storage operations of B (only counted when B is gated)
+    pub n_b: usize,
 }
 
-/// One gated run.  Returns the abstract traces, or the failing oracle.
-fn scenario(kind: &str, seed: u64, k: usize, with_trace: bool) -> Result<Run, String> {
-    let pre = prestate(seed)?;
-    let before = pre.h.be.store();
-    let (ka, kb) = (kind.chars().next().unwrap(), kind.chars().nth(1).unwrap());
-    // A's handle shares the store and the log, but has its own gate
-    let ha = RepoHandle {
-        be: MemBackend { inner: pre.h.be.inner.clone(), gate: Arc::new(Mutex::new(None)), name: "actor-a" },
+/// A command running on its own thread over its own `MemBackend` handle (same store, same log, own gate) that parks
+/// before its `k`-th storage operation until resumed.
+struct Gated {
+    th: std::thread::JoinHandle<Result<Out, String>>,
+    parked: std::sync::mpsc::Receiver<()>,
+    resume: std::sync::mpsc::Sender<()>,
+    own: Arc<AtomicUsize>,
+}
+
+fn spawn_gated(base: &RepoHandle, name: &'static str, k: usize, f: impl FnOnce(&RepoHandle) -> Result<Out, String> + Send + 'static) -> Gated {
+    let h = RepoHandle {
+        be: MemBackend { inner: base.be.inner.clone(), gate: Arc::new(Mutex::new(None)), name },
         hot: None,
-        key: pre.h.key.clone(),
+        key: base.key.clone(),
     };
-    let (parked_tx, parked_rx) = channel::<()>();
-    let (resume_tx, resume_rx) = channel::<()>();
+    let (parked_tx, parked) = channel::<()>();
+    let (resume, resume_rx) = channel::<()>();
     let resume_rx = Arc::new(Mutex::new(resume_rx));
     let own = Arc::new(AtomicUsize::new(0));
     let released = Arc::new(AtomicBool::new(false));
     {
         let (own, released, resume_rx) = (own.clone(), released.clone(), resume_rx.clone());
-        let parked_tx = Mutex::new(parked_tx.clone());
-        ha.be.set_gate(Some(Arc::new(move |_k: usize, _op: &LogOp| {
+        let parked_tx = Mutex::new(parked_tx);
+        h.be.set_gate(Some(Arc::new(move |_k: usize, _op: &LogOp| {
             let mine = own.fetch_add(1, Ordering::SeqCst);
             if mine == k && !released.swap(true, Ordering::SeqCst) {
                 _ = parked_tx.lock().unwrap().send(());
@@ -118,33 +126,55 @@ fn scenario(kind: &str, seed: u64, k: usize, with_trace: bool) -> Result<Run, St
             }
         })));
     }
-    let now = pre.now;
-    let ha2 = ha.clone();
-    let a_thread = std::thread::spawn(move || {
-        // A backs up version 0 again: the content of the snapshot whose packs were marked long ago (a backup that
-        // dedups against marked packs would rely on packs the concurrent prune deletes)
-        let r = run_actor(ka, &ha2, seed, 0, now);
-        r
-    });
-    // wait until A is parked (or has finished with fewer than k operations)
-    let done_tx = parked_tx;
-    let mut a_finished_early = false;
+    let th = std::thread::spawn(move || f(&h));
+    Gated { th, parked, resume, own }
+}
+
+/// wait until the command is parked (or has finished with fewer than k operations)
+fn wait_parked(g: &Gated) {
     loop {
-        if parked_rx.recv_timeout(Duration::from_millis(20)).is_ok() {
-            break;
-        }
-        if a_thread.is_finished() {
-            a_finished_early = true;
+        if g.parked.recv_timeout(Duration::from_millis(20)).is_ok() || g.th.is_finished() {
             break;
         }
     }
-    drop(done_tx);
+}
+
+/// One gated run: A parked before its k-th storage operation; then B runs — completely (`j = None`) or up to its j-th
+/// operation, where it parks until A has finished.  Returns the abstract traces, or the failing oracle.
+fn scenario(kind: &str, seed: u64, k: usize, j: Option<usize>, with_trace: bool) -> Result<Run, String> {
+    let pre = prestate(seed)?;
+    let before = pre.h.be.store();
+    let (ka, kb) = (kind.chars().next().unwrap(), kind.chars().nth(1).unwrap());
+    let now = pre.now;
+    // A backs up version 0 again: the content of the snapshot whose packs were marked long ago (a backup that
+    // dedups against marked packs would rely on packs the concurrent prune deletes); odd seeds: a new version (more packs)
+    let va = if seed % 2 == 0 { 0 } else { 5 };
+    let ga = spawn_gated(&pre.h, "actor-a", k, move |h| run_actor(ka, h, seed, va, now));
+    wait_parked(&ga);
     // files A wrote before it was parked may be replaced by B: keep their content for the trace abstraction
     let mid = pre.h.be.store();
-    let b_out = run_actor(kb, &pre.h, seed, 4, now);
-    _ = resume_tx.send(());
-    let a_out = a_thread.join().map_err(|_| "oracle-fail:actor-a-panicked".to_string())?;
-    let _ = a_finished_early;
+    let mut mid2 = mid.clone();
+    let mut n_b = 0;
+    let (a_out, b_out) = match j {
+        None => {
+            let b_out = run_actor(kb, &pre.h, seed, 4, now);
+            _ = ga.resume.send(());
+            let a_out = ga.th.join().map_err(|_| "oracle-fail:actor-a-panicked".to_string())?;
+            (a_out, b_out)
+        }
+        Some(j) => {
+            let gb = spawn_gated(&pre.h, "actor-b", j, move |h| run_actor(kb, h, seed, 4, now));
+            wait_parked(&gb);
+            mid2 = pre.h.be.store();
+            _ = ga.resume.send(());
+            let a_out = ga.th.join().map_err(|_| "oracle-fail:actor-a-panicked".to_string())?;
+            _ = gb.resume.send(());
+            let b_out = gb.th.join().map_err(|_| "oracle-fail:actor-b-panicked".to_string())?;
+            n_b = gb.own.load(Ordering::SeqCst);
+            (a_out, b_out)
+        }
+    };
+    let own = ga.own;
     let a_out = a_out?;
     let b_out = b_out?;
     let n_a = own.load(Ordering::SeqCst);
@@ -174,15 +204,15 @@ fn scenario(kind: &str, seed: u64, k: usize, with_trace: bool) -> Result<Run, St
         }
     }
     if !with_trace {
-        return Ok(Run { pre: vec![], run: vec![], follow: vec![], n_a });
+        return Ok(Run { pre: vec![], run: vec![], follow: vec![], n_a, n_b });
     }
-    let after_all = union(&union(&mid, &after_run), &pre.h.be.store());
+    let after_all = union(&union(&union(&mid, &mid2), &after_run), &pre.h.be.store());
     let mut log = log_run.clone();
     log.extend(log_follow.iter().cloned());
     let n_run = log_run.iter().filter(|o| o.applied).count();
     let (p, mut toks) = abstract_tokens(&pre.h, &before, &after_all, &log)?;
     let follow = toks.split_off(n_run);
-    Ok(Run { pre: p, run: toks, follow, n_a })
+    Ok(Run { pre: p, run: toks, follow, n_a, n_b })
 }
 
 /// Replay of theorem `slow_prune_can_lose` on the real code, sequentially, with injected plan times:
@@ -238,9 +268,17 @@ pub fn exec(toks: &[&str]) -> String {
         if toks.len() != 6 || toks[0] != "mon" || !["bp", "pb", "bb"].contains(&toks[1].as_str()) {
             return "bad-op".into();
         }
-        let Some((seed, k)) = toks[2].split_once(',') else { return "bad-op".into() };
-        let (Ok(seed), Ok(k)) = (seed.parse::<u64>(), k.parse::<usize>()) else { return "bad-op".into() };
-        match scenario(&toks[1], seed, k, false) {
+        let sp: Vec<&str> = toks[2].split(',').collect();
+        if sp.len() < 2 || sp.len() > 3 {
+            return "bad-op".into();
+        }
+        let (Ok(seed), Ok(k)) = (sp[0].parse::<u64>(), sp[1].parse::<usize>()) else { return "bad-op".into() };
+        let j = match sp.get(2).map(|x| x.parse::<usize>()) {
+            None => None,
+            Some(Ok(j)) => Some(j),
+            Some(Err(_)) => return "bad-op".into(),
+        };
+        match scenario(&toks[1], seed, k, j, false) {
             Ok(_) => "ok".into(),
             Err(e) => e,
         }
@@ -248,38 +286,56 @@ pub fn exec(toks: &[&str]) -> String {
 }
 
 pub fn generate(thorough: bool, rng: &mut Rng, ops: &mut Vec<String>, stats: &mut Stats) {
-    let seeds = if thorough { 3 } else { 1 };
-    for _ in 0..seeds {
+    let seeds = if thorough { 6 } else { 2 };
+    for round in 0..seeds {
         for kind in ["bp", "pb", "bb"] {
             let seed = rng.below(1_000_000);
-            // number of storage operations of A (parked beyond its last operation = sequential run)
-            let n_a = match guarded(move || match scenario(kind, seed, usize::MAX, false) {
-                Ok(r) => r.n_a.to_string(),
+            // number of storage operations of A and of B (parked beyond the last operation = sequential run)
+            let (n_a, n_b) = match guarded(move || match scenario(kind, seed, usize::MAX, Some(usize::MAX), false) {
+                Ok(r) => format!("{},{}", r.n_a, r.n_b),
                 Err(e) => e,
             })
-            .parse::<usize>()
+            .split_once(',')
+            .map(|(a, b)| (a.parse::<usize>(), b.parse::<usize>()))
             {
-                Ok(n) => n,
-                Err(_) => 0,
+                Some((Ok(a), Ok(b))) => (a, b),
+                _ => (0, 0),
             };
-            let ks: Vec<usize> = if thorough || n_a <= 5 {
-                (0..=n_a).collect()
+            let ks: Vec<usize> = (0..=n_a).collect();
+            // (k, j): A parked at k, B parked at j until A has finished.  thorough: every pair (first seed), quick: a sample
+            let mut pairs: Vec<(usize, Option<usize>)> = ks.iter().map(|k| (*k, None)).collect();
+            let mut all = vec![];
+            for k in 0..n_a {
+                for j in 1..n_b {
+                    all.push((k, Some(j)));
+                }
+            }
+            let _ = round;
+            if thorough || all.len() <= 60 {
+                pairs.extend(all);
             } else {
-                let mut v = vec![0, 1, n_a / 2, n_a - 1, n_a];
-                v.push(rng.below(n_a as u64 + 1) as usize);
-                v.sort_unstable();
-                v.dedup();
-                v
-            };
-            for k in ks {
-                let line = guarded(move || match scenario(kind, seed, k, true) {
+                for _ in 0..60 {
+                    pairs.push(*rng.pick(&all));
+                }
+                pairs.sort_unstable();
+                pairs.dedup();
+            }
+            for (k, j) in pairs {
+                let spec = match j {
+                    None => format!("{seed},{k}"),
+                    Some(j) => format!("{seed},{k},{j}"),
+                };
+                let spec2 = spec.clone();
+                let line = guarded(move || match scenario(kind, seed, k, j, true) {
                     Ok(r) => {
-                        let j = |v: &[String]| if v.is_empty() { "-".to_string() } else { v.join(";") };
-                        format!("c10 mon {kind} {seed},{k} {} {} {}", j(&r.pre), j(&r.run), j(&r.follow))
+                        let jn = |v: &[String]| if v.is_empty() { "-".to_string() } else { v.join(";") };
+                        format!("c10 mon {kind} {spec} {} {} {}", jn(&r.pre), jn(&r.run), jn(&r.follow))
                     }
-                    Err(e) => format!("c10 mon {kind} {seed},{k} - X{} -", e.split_whitespace().next().unwrap_or("?")),
+                    Err(e) => format!("c10 mon {kind} {spec} - X{} -", e.split_whitespace().next().unwrap_or("?")),
                 });
+                let line = if line.starts_with("c10 ") { line } else { format!("c10 mon {kind} {spec2} - X{} -", line.split_whitespace().next().unwrap_or("?")) };
                 stats.hit(format!("kind.{kind}"));
+                stats.hit(if j.is_some() { "park.A-at-k.B-at-j" } else { "park.A-at-k.B-full" });
                 ops.push(line);
             }
         }
